@@ -562,7 +562,7 @@ impl BuildJob<'_> {
                         let cwd = &env::current_dir().expect("cannot get working directory");
                         let abs_t = helpers::abs_path(cwd, t);
                         let dnt = abs_t.parent();
-                        if dnt.map_or(false, |dnt| dnt.exists()) {
+                        if dnt.map_or(false, |dnt| !dnt.exists()) {
                             // This could happen, so report a simple error message
                             // that gives a hint for how to fix your .do script.
                             log_err!(
@@ -581,15 +581,22 @@ impl BuildJob<'_> {
                         out_file
                             .seek(SeekFrom::Start(0))
                             .expect("could not seek to beginning of stdout");
-                        io::copy(&mut out_file, &mut newf).expect("could not copy stdout");
-                        st2 = Some(
-                            newf.metadata()
-                                .expect("cannot get copied stdout file metadata"),
-                        );
+                        match io::copy(&mut out_file, &mut newf).and_then(|_| newf.metadata()) {
+                            Ok(m) => st2 = Some(m),
+                            Err(e) => {
+                                // eg. the file system is full
+                                log_err!("{:?}: copy stdout: {}", t, e);
+                                rv = EXIT_BUILD_JOB_ERROR;
+                            }
+                        }
                     }
                 }
             }
-            if st2.is_some() {
+            if rv != EXIT_SUCCESS {
+                // The script's output could not be captured: nothing is
+                // installed and, above all, the previous target is not
+                // removed as if the script had produced no output.
+            } else if st2.is_some() {
                 // either $3 file was created *or* stdout was written to.
                 // therefore tmpfile now exists.
                 if let Err(e) = fs::rename(tmp_name, t) {
@@ -607,7 +614,11 @@ impl BuildJob<'_> {
                     Ok(_)
                     | Err(Errno::EISDIR)
                     | Err(Errno::EPERM) => {}
-                    e @ Err(_) => e.expect("failed to remove target file"),
+                    Err(e) => {
+                        // eg. a read-only directory
+                        log_err!("{:?}: remove: {}", t, e);
+                        rv = EXIT_BUILD_JOB_ERROR;
+                    }
                 }
             }
             if let Err(e) = sf.refresh(ptx) {
